@@ -33,7 +33,9 @@ def ws2dgu(y, lmda, nodata, out):
         n = np.sum(w)
 
         if n > 1:
-            z = ws2d(y, lmda, w)
+            # missing cells have zero weight: keep their (possibly non-finite) values out of the solver
+            yv = np.where(w == 0, 0.0, y)
+            z = ws2d(yv, lmda, w)
             np.round(z, 0, out)
         else:
             out[:] = y[:]
